@@ -122,6 +122,19 @@ def run_all(repo_root: str, variants: List[Dict[str, Any]], jobs: int = 16) -> L
     props = sorted({v["prop"] for v in variants})
     base = {p: evaluate(p, repo_root) for p in props}
     results = []
+    # the corpus measures differences against the tree it runs on; that tree itself must be clean (listed known findings apart), or
+    # a rule that has started to report on correct code hides behind the subtraction
+    import json
+    from ..engine.report import VERIF_ROOT
+    try:
+        listed = {(f["property"], f["rule"], f["construct"]) for f in json.load(open(os.path.join(VERIF_ROOT, "known_findings.json")))["findings"]}
+    except Exception:   # noqa
+        listed = set()
+    for p in props:
+        own = [x for x in base[p]["violated"] if (p, x[0], x[1]) not in listed] + list(base[p]["unknown"])
+        if own:
+            results.append({"id": "unchanged-tree@%s" % p, "kind": "twin", "prop": p, "expect": None, "status": "FALSE-ALARM",
+                            "by": ["%s: %s" % x for x in own][:3]})
     with concurrent.futures.ProcessPoolExecutor(max_workers=min(jobs, len(variants))) as ex:
         for v, res in zip(variants, ex.map(run_variant, [(repo_root, v) for v in variants])):
             r = {"id": v["id"], "kind": v["kind"], "prop": v["prop"], "expect": v.get("expect")}
